@@ -7,6 +7,7 @@ import (
 	"fmt"
 	"os"
 	"runtime/debug"
+	"runtime/pprof"
 	"sort"
 	"strconv"
 	"strings"
@@ -26,6 +27,11 @@ func main() {
 	known := flag.String("known", "/verif/known-findings.txt", "known findings file")
 	list := flag.Bool("list", false, "list obligations")
 	flag.Parse()
+	if pf := os.Getenv("VIPCHECK_PROF"); pf != "" {
+		f, _ := os.Create(pf)
+		pprof.StartCPUProfile(f)
+		defer pprof.StopCPUProfile()
+	}
 	if *prop == "" {
 		fmt.Fprintln(os.Stderr, "usage: vipcheck -prop Cnn [-tier quick|thorough]")
 		os.Exit(2)
@@ -91,6 +97,7 @@ func main() {
 			exit = 1
 		}
 	}
+	pprof.StopCPUProfile()
 	os.Exit(exit)
 }
 
